@@ -93,6 +93,8 @@ class FuncAnalysis:
         self.name = fdef.name
         self.sites = []          # (class, tuple(trychain))
         self.site_lines = []     # (class, tuple(trychain), lineno) - for explaining observed exceptions, not emitted to Coq
+        self.calls = []          # (receiver kind: name|self|attr, callee name, tuple(trychain)) - every call, for the callee inventory
+        self.guards = []         # normalised tests of if/while statements outside any try, or testing for None
         self.cur_line = fdef.lineno
         self.tries = []          # dict(id, caught, handler, lineno)
         self.trystack = []       # ids, innermost last
@@ -134,6 +136,33 @@ class FuncAnalysis:
                             self.noneable.add(t.id)
                 walk(ch, top)
         walk(fdef, fdef)
+        # canonical names of the locals, by position of first binding
+        occ = []
+        for node in ast.walk(fdef):
+            if isinstance(node, ast.Name) and isinstance(node.ctx, ast.Store) and node.id in self.locals:
+                occ.append((node.lineno, node.col_offset, node.id))
+        self.canon = {}
+        for pname in self.params:
+            self.canon.setdefault(pname, "v%d" % len(self.canon))
+        for _, _, n in sorted(occ):
+            self.canon.setdefault(n, "v%d" % len(self.canon))
+        self.guards_seen = set()
+
+    # ---- guards ---------------------------------------------------------------------------
+    def guard(self, test):
+        """Pin the test of an if/while that stands outside every try (it is all that protects the unguarded sites after it),
+        or that compares with None; locals are renamed canonically so that renaming a variable does not matter."""
+        src = ast.unparse(test)
+        if self.trystack and " is None" not in src and " is not None" not in src:
+            return
+        t = ast.parse(src, mode="eval").body
+        for n in ast.walk(t):
+            if isinstance(n, ast.Name) and n.id in self.canon:
+                n.id = self.canon[n.id]
+        g = ast.unparse(t)
+        if g not in self.guards_seen:       # loops are analysed several times
+            self.guards_seen.add(g)
+            self.guards.append(g)
 
     # ---- recording ------------------------------------------------------------------------
     def site(self, cls, st):
@@ -199,6 +228,15 @@ class FuncAnalysis:
                 self.expr(a.value if isinstance(a, ast.Starred) else a, st, extra=extra)
             for k in e.keywords:
                 self.expr(k.value, st, extra=extra)
+            if not st.dead:
+                rk = "name"
+                if isinstance(e.func, ast.Attribute):
+                    rk = "self" if isinstance(e.func.value, ast.Name) and e.func.value.id in ("self", "cls") else "attr"
+                    if isinstance(e.func.value, ast.Name) and e.func.value.id[:2] == "P_":
+                        rk = "self"
+                elif isinstance(e.func, ast.Name) and e.func.id in self.locals:
+                    rk = "local"
+                self.calls.append((rk, nm, tuple(reversed(self.trystack))))
             if nm in ("float", "int", "next", "eval", "exec", "setattr", "getattr", "reduce", "max", "min"):
                 self.site(nm if nm in ("float", "int", "next") else "call:" + nm, st)
             elif nm not in SAFE_CALLS:
@@ -386,6 +424,7 @@ class FuncAnalysis:
                 a = a | {(al.asname or al.name).split(".")[0]}
             return State(a, st.nonnone)
         if isinstance(s, ast.If):
+            self.guard(s.test)
             self.expr(s.test, st)
             t, f = self.refine(s.test, st)
             o1 = self.block(s.body, t, loop)
@@ -404,6 +443,7 @@ class FuncAnalysis:
                 else:
                     self_sites = len(self.sites)
                     self_lines = len(self.site_lines)
+                    self.guard(s.test)
                     self.expr(s.test, head)
                     body_in, exit_normal = self.refine(s.test, head)
                 out = self.block(s.body, body_in, lp)
@@ -524,6 +564,145 @@ def site_table(fmt):
     return out
 
 
+LIBRARY_MODULES = ["symmetryutilities", "spacegroups", "spacegroupmod", "lattice", "atom", "structure", "pdffitstructure", "utils"]
+
+
+class Library:
+    """Explicit raise statements and name-level call edges of the modules the parsers call into."""
+
+    def __init__(self):
+        self.funcs = {}        # qualified name -> (module, FunctionDef, class name or None)
+        self.classes = {}      # class name -> {method name: qualified name}
+        self.toplevel = {}     # function name -> qualified name
+        for mod in LIBRARY_MODULES:
+            fn = os.path.join(SRC, mod + ".py")
+            if not os.path.exists(fn):
+                raise TranslatorRefusal("%s.py: library module not found" % mod)
+            tree = ast.parse(open(fn).read(), fn)
+            for st in tree.body:
+                if isinstance(st, ast.FunctionDef):
+                    q = "%s.%s" % (mod, st.name)
+                    self.funcs[q] = (mod, st, None)
+                    self.toplevel.setdefault(st.name, q)
+                elif isinstance(st, ast.ClassDef):
+                    meths = self.classes.setdefault(st.name, {})
+                    for m in st.body:
+                        if isinstance(m, ast.FunctionDef):
+                            q = "%s.%s.%s" % (mod, st.name, m.name)
+                            self.funcs[q] = (mod, m, st.name)
+                            meths.setdefault(m.name, q)
+        self.raises = {}
+        self.edges = {}
+        for q, (mod, f, cls) in self.funcs.items():
+            rs, es = set(), set()
+            for n in ast.walk(f):
+                if isinstance(n, ast.Raise) and n.exc is not None:
+                    nm = callee_name(n.exc.func) if isinstance(n.exc, ast.Call) else callee_name(n.exc)
+                    if nm not in KIND_OF:
+                        raise TranslatorRefusal("%s.py:%d: raise of %s, which is not in the kind table" % (mod, n.lineno, nm))
+                    rs.add(KIND_OF[nm])
+                if isinstance(n, ast.Call):
+                    es.update(self.resolve(n.func, cls))
+            self.raises[q] = rs
+            self.edges[q] = es
+        # transitive closure of the reachable raises
+        self.reach = {}
+        for q in self.funcs:
+            seen, todo, acc = set(), [q], set()
+            while todo:
+                x = todo.pop()
+                if x in seen:
+                    continue
+                seen.add(x)
+                for k in self.raises[x]:
+                    acc.add((x, k))
+                todo.extend(self.edges[x])
+            self.reach[q] = acc
+
+    def resolve(self, func, cls=None):
+        """Qualified names a call expression may denote (by name; a class name means its constructor)."""
+        out = set()
+        if isinstance(func, ast.Name):
+            n = func.id
+            if n in self.classes:
+                for m in ("__init__", "__new__"):
+                    if m in self.classes[n]:
+                        out.add(self.classes[n][m])
+            elif n in self.toplevel:
+                out.add(self.toplevel[n])
+        elif isinstance(func, ast.Attribute):
+            m = func.attr
+            if isinstance(func.value, ast.Name) and func.value.id == "self" and cls and m in self.classes.get(cls, {}):
+                out.add(self.classes[cls][m])
+            elif isinstance(func.value, ast.Name) and func.value.id in self.classes:
+                if m in self.classes[func.value.id]:       # ClassName.method(...)
+                    out.add(self.classes[func.value.id][m])
+            elif m.startswith("__") and m.endswith("__"):
+                pass                                       # dunder call on an unknown receiver: not followed
+            else:
+                for c, meths in self.classes.items():
+                    if m in meths:
+                        out.add(meths[m])
+                if m in self.classes:          # module.ClassName(...)
+                    out.update(self.resolve(ast.Name(id=m)))
+                elif m in self.toplevel and not out:
+                    out.add(self.toplevel[m])
+        return out
+
+
+def callee_raises(fmt, lib=None):
+    """[(raising library function, kind, [caught tuple of every enclosing try, innermost first])] for every explicit raise of
+    the library modules that is reachable (by name) from a call made by a reader-side function of p_<fmt>.py, with the try
+    context of that call - including the context in which the parser's own helper functions are called."""
+    lib = lib or Library()
+    fas = {fa.name: fa for fa in analyse(fmt)}
+    caught = {name: {t["id"]: [k for kinds, _ in t["handlers"] for k in kinds] for t in fa.tries} for name, fa in fas.items()}
+    called_by_name = set()
+    for fa in fas.values():
+        for rk, nm, chain in fa.calls:
+            if rk in ("self", "name") and nm in fas:
+                called_by_name.add(nm)
+    dynamic = [n for n in fas if n not in called_by_name and n not in ("parse", "parseLines", "parseFile")]
+    # contexts of every parser function: set of chains (tuple of tuples of kind names)
+    ctx = {n: set() for n in fas}
+    for n in fas:
+        if n in ("parse", "parseLines", "parseFile") or (n not in called_by_name and n not in dynamic):
+            ctx[n].add(())
+    changed = True
+    rounds = 0
+    while changed:
+        changed = False
+        rounds += 1
+        if rounds > 50:
+            raise TranslatorRefusal("p_%s.py: call contexts do not stabilise" % fmt)
+        for n, fa in fas.items():
+            for c in list(ctx[n]):
+                for rk, nm, chain in fa.calls:
+                    local = tuple(tuple(caught[n][t]) for t in chain)
+                    targets = []
+                    if rk in ("self", "name") and nm in fas:
+                        targets = [nm]
+                    elif rk == "local":
+                        targets = dynamic            # a callee held in a variable: any function that is only reachable dynamically
+                    for t in targets:
+                        full = local + c
+                        if full not in ctx[t]:
+                            ctx[t].add(full)
+                            changed = True
+    out = set()
+    for n, fa in fas.items():
+        for c in ctx[n]:
+            for rk, nm, chain in fa.calls:
+                if rk in ("self", "name") and nm in fas:
+                    continue
+                local = tuple(tuple(caught[n][t]) for t in chain)
+                func = ast.Name(id=nm) if rk in ("name", "local") else ast.Attribute(value=ast.Name(id="obj"), attr=nm)
+                for q in lib.resolve(func):
+                    for (rq, k) in lib.reach[q]:
+                        out.add((rq, k, local + c))
+    return sorted(out)
+
+
 def coq_str(s):
     return '"' + s.replace('"', '""') + '"'
 
@@ -531,9 +710,11 @@ def coq_str(s):
 def spec():
     """{fmt: {"tries": [(func, id, [kinds], handlerkind)], "sites": [(func, cls, chain)]}}"""
     out = {}
+    lib = Library()
     for fmt in FORMATS:
         tries, sites = [], []
-        for fa in analyse(fmt):
+        fas_list = analyse(fmt)
+        for fa in fas_list:
             for t in fa.tries:
                 for k, (kinds, hk) in enumerate(t["handlers"], 1):
                     tries.append((fa.name, t["id"], k, kinds, hk))
@@ -543,7 +724,8 @@ def spec():
         for f, c, ch in sites:
             counted[(f, c, tuple(ch))] = counted.get((f, c, tuple(ch)), 0) + 1
         sites = sorted((f, c, list(ch), n) for (f, c, ch), n in counted.items())
-        out[fmt] = {"tries": tries, "sites": sites}
+        guards = sorted((fa.name, g) for fa in fas_list for g in fa.guards)
+        out[fmt] = {"tries": tries, "sites": sites, "guards": guards, "callees": callee_raises(fmt, lib)}
     return out
 
 
@@ -582,6 +764,12 @@ def generate():
             base = "%s_%s_try%d%s" % (fmt, func.strip("_"), tid, suffix)
             L.append("Definition %s_caught : list kind := [%s]." % (base, "; ".join(kinds)))
             L.append("Definition %s_handler : handler_kind := %s." % (base, hk))
+        L.append("Definition %s_guards : list (string * string) := [%s]." % (
+            fmt, "; ".join("(%s, %s)" % (coq_str(f), coq_str(g)) for f, g in sp[fmt]["guards"])))
+        L.append("Definition %s_callee_raises : list (string * kind * list (list kind)) := [" % fmt)
+        L.append(";\n".join("  (%s, %s, [%s])" % (coq_str(q), k, "; ".join("[%s]" % "; ".join(t) for t in ch))
+                            for q, k, ch in sp[fmt]["callees"]))
+        L.append("].")
         L.append("Definition %s_sites : list site := [" % fmt)
         L.append(";\n".join("  (%s, %s, [%s], %d)" % (coq_str(f), coq_str(c), "; ".join(str(x) for x in ch), n)
                             for f, c, ch, n in sp[fmt]["sites"]))
@@ -603,6 +791,8 @@ def expected_sites_file():
          "From Coq Require Import List String.", "From DS Require Import Base.C13_Exn Gen.C13_ExcSpec.",
          "Import ListNotations.", "Open Scope string_scope.", ""]
     for fmt in FORMATS:
+        L.append("Definition %s_guards_expected : list (string * string) := [%s]." % (
+            fmt, "; ".join("(%s, %s)" % (coq_str(f), coq_str(g)) for f, g in sp[fmt]["guards"])))
         L.append("Definition %s_sites_expected : list site := [" % fmt)
         L.append(";\n".join("  (%s, %s, [%s], %d)" % (coq_str(f), coq_str(c), "; ".join(str(x) for x in ch), n)
                             for f, c, ch, n in sp[fmt]["sites"]))
